@@ -441,12 +441,17 @@ func Timeout[T any](duration time.Duration) func(Observable[T]) Observable[T] {
 		return NewObservableWithContext(func(subscriberCtx context.Context, destination Observer[T]) Teardown {
 			var sub Subscription
 
+			// atomic.Value requires every stored value to have the same concrete type, and contexts
+			// come in many (the subscriber's may be a plain Background, an item's a value context):
+			// they are stored inside a holder.
+			type ctxHolder struct{ ctx context.Context }
+
 			var lastCtx atomic.Value
 
-			lastCtx.Store(subscriberCtx) // if no value is emitted, we use the subscriber context
+			lastCtx.Store(ctxHolder{subscriberCtx}) // if no value is emitted, we use the subscriber context
 
 			timer := time.AfterFunc(duration, func() {
-				destination.ErrorWithContext(lastCtx.Load().(context.Context), newTimeoutError(duration)) //nolint:errcheck,forcetypeassert
+				destination.ErrorWithContext(lastCtx.Load().(ctxHolder).ctx, newTimeoutError(duration)) //nolint:errcheck,forcetypeassert
 			})
 
 			sub = source.SubscribeWithContext(
@@ -457,7 +462,7 @@ func Timeout[T any](duration time.Duration) func(Observable[T]) Observable[T] {
 						destination.NextWithContext(ctx, value)
 						// @TODO: what happens if the above line is too slow?
 						timer.Reset(duration)
-						lastCtx.Store(ctx)
+						lastCtx.Store(ctxHolder{ctx})
 					},
 					func(ctx context.Context, err error) {
 						timer.Stop()
